@@ -1005,3 +1005,38 @@ V("C08-failed-shard-counted","C08",EN+"put.go","""		err := e.putToShard(sh, addr
 			goodShards = append(goodShards, sh)""","""		err := e.putToShard(sh, addr, obj, objBin)
 		if err == nil || errors.Is(err, errExists) || errors.Is(err, shard.ErrReadOnlyMode) {
 			goodShards = append(goodShards, sh)""",rule="C08.R1")
+
+# ---- C41
+V("C41-use-before-parseerror","C41","internal/object/wire.go","""		val, n := protowire.ConsumeBytes(data[offset:])
+		if err := protowire.ParseError(n); err != nil {
+			return nil, nil, fmt.Errorf("invalid bytes field at offset %d: %w", offset, err)
+		}
+		offset += n
+""","""		val, n := protowire.ConsumeBytes(data[offset:])
+		offset += n
+		if err := protowire.ParseError(n); err != nil {
+			return nil, nil, fmt.Errorf("invalid bytes field at offset %d: %w", offset, err)
+		}
+""",rule="C41.R1")
+V("C41-bounds-error-ignored","C41","internal/object/wire.go","""	rootHdrf, err := iprotobuf.GetLENFieldBounds(buf, protoobject.FieldObjectHeader)
+	if err != nil {
+		return idf, sigf, hdrf, err
+	}
+""","""	rootHdrf, _ := iprotobuf.GetLENFieldBounds(buf, protoobject.FieldObjectHeader)
+""",rule="C41.R1")
+V("C41-switch-loses-a-case","C41","internal/object/wire.go","""		case protoobject.FieldHeaderSplitPrevious:
+""","",rule="C41.R2")
+V("C41-silent-err-var","C41","internal/object/wire.go","""		f, err := iprotobuf.ParseLENFieldBounds(buf, off, n, num, typ)
+		if err != nil {
+			return idf, sigf, hdrf, err
+		}
+
+		switch num {
+		case protoobject.FieldObjectID:""","""		f, perr := iprotobuf.ParseLENFieldBounds(buf, off, n, num, typ)
+		if perr == nil {
+		} else {
+			return idf, sigf, hdrf, perr
+		}
+
+		switch num {
+		case protoobject.FieldObjectID:""",expect="silent")
